@@ -57,3 +57,5 @@ SPEC = dict(
                  "code_config / structure_ok: constants and statement order regenerated from hub/hub_connections.go, cert/cert.go, api/websocket.go",
                  "no connection to the peer's SKI exists when the decision is taken (keepThisConnection answers true)"],
 )
+
+SPEC["manifest"]["text"] += ' Sessions: the genuine certificates of the other devices have been seen by the process before a certificate copying their SKI is presented; in 40% of the outbound sessions the presented SKI is itself a paired device.'
